@@ -181,6 +181,10 @@ def has(n, kind):
     return any(x.k == kind for x in walk(n))
 
 
+def has_lit(n, ch):
+    return any(x.k == 'lit' and x.a[0] == ch for x in walk(n))
+
+
 def nullable_rep_body(n):
     return any(x.k == 'rep' and nullable(x.a[0]) for x in walk(n))
 
@@ -224,6 +228,12 @@ def fragile_shape(n):
             if x.a[1] == 0 and fixed_len(x.a[0]) is None:
                 return True
     return False
+
+
+def quantified_caps(n):
+    """a capturing group stands under a quantifier (which repetition's text it holds after backtracking is the recorded
+    finding C19/C03)"""
+    return any(x.k == 'rep' and ncaps(x.a[0]) > 0 for x in walk(n))
 
 
 def ncaps(n):
@@ -349,6 +359,76 @@ def shaped_patterns():
     return out
 
 
+def words(alphabet, max_len):
+    out, frontier = [''], ['']
+    for _l in range(max_len):
+        frontier = [w + ch for w in frontier for ch in alphabet]
+        out += frontier
+    return out
+
+
+def families():
+    """systematic families: every combination of a small pool, every input up to a length bound. Each entry:
+    (node, flags, alphabet, max input length)"""
+    out = []
+    a, b, c, x = lit('a'), lit('b'), lit('c'), lit('x')
+    nc = lambda *ns: grp(alt([seq(list(n)) for n in ns]), False)
+    # C: X{q} Y - a quantified term next to a term with a related / unrelated first set
+    pool_x = [a, cls(['a', 'b']), cls([('a', 'c')]), cls(['a'], neg=True), N('dot'), nc([a, b]), nc([a], [a, b])]
+    pool_y = [a, b, cls(['b', 'c']), cls(['a', 'c'], neg=True), cls([('a', 'c')], sub=['b']), nc([a], [b, c]), nc([b, c], [b]), grp(seq([a]), True)]
+    quants = [(0, None, False), (1, None, False), (0, 1, False), (1, 2, False), (0, None, True), (1, None, True)]
+    for X in pool_x:
+        for (lo, hi, lazy) in quants:
+            for Y in pool_y:
+                out.append((seq([rep(X, lo, hi, lazy), Y]), '', ['a', 'b', 'c'], 4))
+    # alternation: branch order, single characters after longer branches
+    for br in ([[a], [b, c], [b]], [[a, b], [a]], [[a], [a, b]], [[b], [b, c], [a]], [[a, b, c], [a, b], [a]]):
+        out.append((alt([seq(list(x_)) for x_ in br]), '', ['a', 'b', 'c'], 4))
+        out.append((seq([grp(alt([seq(list(x_)) for x_ in br]), True), c]), '', ['a', 'b', 'c'], 4))
+    # D: anchors with and without flag m
+    bol, eol, nl = N('bol'), N('eol'), lit('\n')
+    anch = [seq([bol, a]), seq([bol, rep(a, 1, None, False)]), seq([a, eol]), seq([bol, a, eol]), seq([bol, b]),
+            seq([rep(grp(seq([bol, a]), True), 0, 1, False), b]), seq([nc([bol, a], [b]), c]), seq([a, nc([eol], [b])]),
+            seq([nc([bol], [a]), b]), seq([rep(a, 0, None, False), bol, b]), seq([rep(nl, 0, None, False), eol, nl, b]),
+            seq([bol, N('dot'), eol]), seq([a, rep(N('dot'), 0, None, False), eol]), seq([bol, eol])]
+    for n in anch:
+        for fl in ('', 'm', 'ms', 's'):
+            out.append((n, fl, ['a', 'b', '\n'], 5))
+    # F: back-references, with and without flag i
+    g = lambda *ns: grp(seq(list(ns)), True)
+    brs = [seq([g(a, b), N('bref', 1)]), seq([g(a, N('dot')), N('bref', 1)]), seq([g(a), g(b), N('bref', 2), N('bref', 1)]),
+           seq([g(nc([a], [b])), N('bref', 1)]), seq([g(a, b), c, N('bref', 1)]), seq([g(rep(a, 1, None, False)), b, N('bref', 1)])]
+    for n in brs:
+        out.append((n, '', ['a', 'b', 'c'], 5))
+        out.append((n, 'i', ['a', 'b', 'A', 'B'], 4))
+    # groups in alternations and repetitions, followed by later groups (capture bookkeeping across failed attempts)
+    z, xx, y = lit('z'), lit('x'), lit('y')
+    grp_pats = [seq([rep(g(a), 0, None, False), b, g(c)]), seq([rep(nc([g(a, rep(b, 0, 1, False))], [z]), 0, None, False), c, g(lit('d'))]),
+                alt([seq([xx, nc([g(a)], [b]), y]), seq([xx, a, g(z)])]), seq([xx, nc([g(a)], [g(b)]), y]), nc([g(a), b], [a, g(c)]),
+                seq([nc([g(a), xx], []), g(a), y]) if False else seq([rep(grp(seq([g(a), xx]), False), 0, 1, False), g(a), y]),
+                seq([rep(grp(seq([xx, nc([g(a)], [b]), y]), False), 1, None, False), xx, a, z])]
+    for n in grp_pats:
+        out.append((n, '', ['a', 'x', 'y', 'z'] if has_lit(n, 'x') else ['a', 'b', 'c', 'd'] if has_lit(n, 'd') else ['a', 'b', 'c'], 5 if not has_lit(n, 'x') else 4))
+    # r{0}, r{0,0}: the group still counts
+    out.append((seq([rep(g(a), 0, 0, False), g(b)]), '', ['a', 'b', 'c'], 4))
+    out.append((seq([g(a), rep(g(b), 0, 0, False), g(c)]), '', ['a', 'b', 'c'], 4))
+    return out
+
+
+BOUNDARY_CHARS = ['\x01', ' ', '~', '\x7f', '\x80', '\xff', '\u0100', '\u212a', '\ud7ff', '\ue000', '\ufffd', '\U00010000', '\U0010ffff']
+
+
+def class_family():
+    """E: character classes against single characters at the boundaries of the code space"""
+    pats = [cls(['a']), cls(['a'], neg=True), cls([('a', 'c')]), cls([('a', 'c')], neg=True), N('dot'), cls(['\x7f']),
+            cls([('\x01', '\x7f')]), cls([('\x80', '\U0010ffff')]), cls([('a', '\xff')], sub=['\x7f']), cls(['\x7f'], neg=True)]
+    out = []
+    for n in pats:
+        for fl in ('', 's'):
+            out.append((n, fl, [ch for ch in BOUNDARY_CHARS] + ['a' + ch for ch in BOUNDARY_CHARS] + ['a', '']))
+    return out
+
+
 def gen_inputs(rng, alphabet, n, max_len):
     out = {''}
     for ln in range(1, 4):
@@ -385,9 +465,10 @@ class Probe:
         os.makedirs(ex, exist_ok=True)
         shutil.copy(os.path.join(VERIF, 'harness', 'verif_probe.rs'), ex)
         env = dict(os.environ, CARGO_TARGET_DIR=os.path.join(self.ws, 'target'), CARGO_NET_OFFLINE='true')
-        r = subprocess.run(['cargo', 'build', '--release', '--offline', '-p', 'regexml', '--example', 'verif_probe'],
+        # dev profile: overflow checks and debug assertions are on, as in the test suite (C05)
+        r = subprocess.run(['cargo', 'build', '--offline', '-p', 'regexml', '--example', 'verif_probe'],
                            cwd=src, env=env, capture_output=True, text=True, timeout=1500)
-        self.bin = os.path.join(self.ws, 'target', 'release', 'examples', 'verif_probe')
+        self.bin = os.path.join(self.ws, 'target', 'debug', 'examples', 'verif_probe')
         if r.returncode != 0 or not os.path.exists(self.bin):
             self.close()
             raise RuntimeError('probe build failed:\n' + r.stderr[-3000:])
@@ -620,6 +701,7 @@ def check_case(c, r, pids):
                 fails.append(('C04', 'analyze entries vs the spans of replace_all', repr(exp_ents), repr([(x[0], x[1]) for x in ents])))
             c.ents = ents
     c.spans = spans
+    c.pymatches = list(pre.finditer(inp)) if (not fragile and spans == exp_spans and not quantified_caps(node)) else None
     return fails
 
 
@@ -635,9 +717,25 @@ def check_groups(c, r_groups):
     ms = [e for e in ents if e[0] == 'M']
     if len(per_match) != len(ms):
         return fails
-    for mtxt, e in zip(per_match, ms):
+    pym = getattr(c, 'pymatches', None)
+    if pym is not None and len(pym) != len(ms):
+        pym = None
+    for mi, (mtxt, e) in enumerate(zip(per_match, ms)):
         caps = mtxt.split('\x03')
         if len(caps) != k:
+            continue
+        if pym is not None:
+            # C03 against the oracle (patterns without a quantified group): $N is the text of the group's last participation,
+            # empty if it did not participate; analyze lists exactly the groups that participated
+            for g in range(1, k + 1):
+                want = pym[mi].group(g)
+                if caps[g - 1] != (want or ''):
+                    fails.append(('C03', 'text of $%d' % g, repr(want or ''), repr(caps[g - 1])))
+                got = e[2].get(g)
+                if want is None and got is not None:
+                    fails.append(('C03', 'analyze lists group %d, which did not participate' % g, 'no Group entry', repr(got)))
+                elif want is not None and got != [want]:
+                    fails.append(('C03', 'analyze group %d' % g, repr([want]), repr(got)))
             continue
         for g in range(1, k + 1):
             t = caps[g - 1]
@@ -709,12 +807,23 @@ def search(pids, repo, tier='quick', seed=0, log=None):
     try:
         cases, groups_cases, pairs = [], [], []
         flagsets = ['', '', '', 'i', 'm', 's', 'x', 'im', 'q']
-        pats = [(p, True) for p in shaped_patterns()]
+        pats = [(p, True, None) for p in shaped_patterns()]
+        for fam in families():
+            pats.append((fam[0], True, fam))
+        for fam in class_family():
+            pats.append((fam[0], True, fam))
         for _ in range(b['patterns']):
             anchors = rng.random() < 0.4
             alphabet = ['a', 'b', 'c'] if rng.random() < 0.8 else ['a', 'b', '\n']
-            pats.append((gen_pattern(rng, alphabet, anchors), False))
-        for node, shaped in pats:
+            pats.append((gen_pattern(rng, alphabet, anchors), False, None))
+        for node, shaped, fam in pats:
+            if fam is not None:
+                fl = fam[1]
+                xpat = to_x(node)
+                inputs = words(fam[2], fam[3]) if len(fam) == 4 else fam[2]
+                for inp in inputs:
+                    cases.append(Case(node, fl, inp, xpat))
+                continue
             fl = rng.choice(flagsets) if not shaped else rng.choice(['', '', 'm', 'i'])
             alphabet = ['a', 'b', 'c']
             if has(node, 'bol') or has(node, 'eol') or any(x.k == 'lit' and x.a[0] == '\n' for x in walk(node)):
@@ -776,6 +885,98 @@ def search(pids, repo, tier='quick', seed=0, log=None):
             if r is not None and not r.get('compile', '').startswith('ERR'):
                 fails.append({'pid': 'C17', 'pids': ['C17'] + (['C13'] if 'q' in fl else []), 'what': 'Regex::xsd accepts an XPath extension', 'dialect': 'xsd', 'pattern': pat,
                               'flags': fl, 'input': 'ab', 'expected': 'an error', 'actual': r.get('compile', '?')})
+        # C07: malformed patterns are rejected with Error::Syntax (each one leaves the grammar in one identifiable way)
+        malformed = ['a{3,2}', '(a*){3,2}', '(a|){2,1}', '^{2,1}a', 'a${3,1}', '(', ')', 'a)', '(a', '[', '[a', 'a]', '[]', '[b-a]', 'a**', '*a', '+', '?a',
+                     'a|*', '(*a)', 'a{2', 'a{,2}', 'a{x}', '\\q', '\\', 'a\\', '\\1', '(a)\\2', '(a\\1)', '[\\1]', '\\p{Foo}', '\\p{IsFoo}', '\\p{Lu',
+                     '\\p{Is Basic Latin}', '\\p{IsBasic_Latin}', '\\p{L u}', '[a-\\d]', '\\0']
+        mres = probe.run([('xpath', '', pat, 'a', 'X') for pat in malformed])
+        for pat, r in zip(malformed, mres):
+            if r is not None and not r.get('compile', '').startswith('ERR:Syntax'):
+                fails.append({'pid': 'C07', 'pids': ['C07'], 'what': 'a malformed pattern is not rejected with Error::Syntax', 'dialect': 'xpath', 'pattern': pat,
+                              'flags': '', 'input': 'a', 'expected': 'ERR:Syntax', 'actual': r.get('compile', '?')})
+        for fl in ['z', 'ii z', 'a', 'mz', ';z', 'sX']:
+            pass
+        fres = probe.run([('xpath', fl, 'a', 'a', 'X') for fl in ['z', 'a', 'mz', 'X', 'i z']])
+        for fl, r in zip(['z', 'a', 'mz', 'X', 'i z'], fres):
+            if r is not None and not r.get('compile', '').startswith('ERR:InvalidFlags'):
+                fails.append({'pid': 'C07', 'pids': ['C07', 'C13'], 'what': 'an unknown flag is not rejected with Error::InvalidFlags', 'dialect': 'xpath', 'pattern': 'a',
+                              'flags': fl, 'input': 'a', 'expected': 'ERR:InvalidFlags', 'actual': r.get('compile', '?')})
+        # C10: category, block and multi-character escapes on characters whose General_Category is stable across Unicode versions
+        import unicodedata
+        cat = lambda ch: unicodedata.category(ch)
+        catpats = [('\\p{Lu}', lambda ch: cat(ch) == 'Lu'), ('\\p{Ll}', lambda ch: cat(ch) == 'Ll'), ('\\p{L}', lambda ch: cat(ch)[0] == 'L'), ('\\P{L}', lambda ch: cat(ch)[0] != 'L'),
+                   ('\\p{Cc}', lambda ch: cat(ch) == 'Cc'), ('\\p{Co}', lambda ch: cat(ch) == 'Co'), ('\\p{Zs}', lambda ch: cat(ch) == 'Zs'), ('\\p{Zl}', lambda ch: cat(ch) == 'Zl'),
+                   ('\\p{Zp}', lambda ch: cat(ch) == 'Zp'), ('\\p{Nd}', lambda ch: cat(ch) == 'Nd'), ('\\d', lambda ch: cat(ch) == 'Nd'), ('\\D', lambda ch: cat(ch) != 'Nd'),
+                   ('\\w', lambda ch: cat(ch)[0] not in 'PZC'), ('\\W', lambda ch: cat(ch)[0] in 'PZC'), ('\\s', lambda ch: ch in ' \t\n\r'), ('\\S', lambda ch: ch not in ' \t\n\r'),
+                   ('\\p{IsBasicLatin}', lambda ch: ord(ch) <= 0x7f), ('\\P{IsBasicLatin}', lambda ch: ord(ch) > 0x7f), ('\\p{IsLatin-1Supplement}', lambda ch: 0x80 <= ord(ch) <= 0xff),
+                   ('\\p{So}', lambda ch: cat(ch) == 'So'), ('\\p{Lo}', lambda ch: cat(ch) == 'Lo'), ('\\p{Sm}', lambda ch: cat(ch) == 'Sm'), ('\\p{Pd}', lambda ch: cat(ch) == 'Pd')]
+        catchars = ['\x01', '\t', ' ', '~', '\x7f', '\x80', '\xa0', '\xff', '\u0100', '\u212a', '\u2028', '\u2029', '\ue000', '\ufffd', '\U00010000', 'a', 'Z', '5', '-', '+', '_']
+        ccases = [(pat, pred, ch) for (pat, pred) in catpats for ch in catchars]
+        cres2 = probe.run([('xpath', '', '^' + pat + '$', ch, 'X') for (pat, pred, ch) in ccases])
+        for (pat, pred, ch), r in zip(ccases, cres2):
+            if r is not None and r.get('is_match') != str(bool(pred(ch))).lower():
+                fails.append({'pid': 'C10', 'pids': ['C10', 'C09'], 'what': 'membership of U+%04X in %s' % (ord(ch), pat.replace('\\\\', '\\')), 'dialect': 'xpath', 'pattern': '^' + pat + '$',
+                              'flags': '', 'input': ch, 'expected': 'is_match ' + str(bool(pred(ch))).lower(), 'actual': 'compile %s is_match %s' % (r.get('compile'), r.get('is_match'))})
+        # C14: flag x removes exactly TAB, LF, CR and SPACE outside character classes
+        xcases = [('a\x0cb', 'x', 'a\x0cb', True), ('a\x0cb', 'x', 'ab', False), ('a b', 'x', 'ab', True), ('a b', 'x', 'a b', False), ('a\tb\r\nc', 'x', 'abc', True),
+                  ('[ ]', 'x', ' ', True), ('[ ]', 'x', '', False), ('a[ b]c', 'x', 'a c', True), ('a\x0bb', 'x', 'a\x0bb', True), ('a\xa0b', 'x', 'a\xa0b', True),
+                  ('a\u2003b', 'x', 'ab', False), ('( a | b ) c', 'x', 'bc', True), ('a b', 'qx', 'a b', True), ('a b', 'qx', 'ab', False)]
+        xres = probe.run([('xpath', fl, pat, inp, 'X') for (pat, fl, inp, exp) in xcases])
+        for (pat, fl, inp, exp), r in zip(xcases, xres):
+            if r is not None and r.get('is_match') != str(exp).lower():
+                fails.append({'pid': 'C14', 'pids': ['C14', 'C13'] if 'q' in fl else ['C14'], 'what': 'flag x: which characters of the pattern are ignored', 'dialect': 'xpath',
+                              'pattern': pat, 'flags': fl, 'input': inp, 'expected': 'is_match ' + str(exp).lower(), 'actual': 'compile %s is_match %s' % (r.get('compile'), r.get('is_match'))})
+        # C15: replacement strings
+        def expand(repl, m, ngroups):
+            out, i = '', 0
+            while i < len(repl):
+                ch = repl[i]
+                if ch == '\\':
+                    if i + 1 < len(repl) and repl[i + 1] in '\\$':
+                        out += repl[i + 1]
+                        i += 2
+                        continue
+                    return None
+                if ch == '$':
+                    j = i + 1
+                    if j >= len(repl) or not repl[j].isdigit():
+                        return None
+                    if ngroups > 9:
+                        k = j + 1
+                        while k < len(repl) and repl[k].isdigit() and int(repl[j:k + 1]) <= ngroups:
+                            k += 1
+                    else:
+                        k = j + 1
+                    nr = int(repl[j:k])
+                    if nr <= ngroups:
+                        out += (m.group(nr) or '')
+                    i = k
+                    continue
+                out += ch
+                i += 1
+            return out
+        ten = ''.join('(%s)' % ch for ch in 'abcdefghij')
+        rpats = [('(a)(b)?', 2, 'xabyaz'), ('(a){0}(b)', 2, 'xbx'), (ten, 10, '-abcdefghij-'), ('(a)(b)(c)(d)(e)(f)(g)(h)(i){0}(j)', 10, '-abcdefghj-'), ('a', 0, 'banana'), ('(a)|b', 1, 'abc')]
+        repls = ['$1', '[$1|$2]', '$2', '$10', '$11', '$0', '\\$', '\\\\', 'x$', '\\x', '$a', '$1$1', '<$0>$3', '$9x', '$01']
+        rcases = [(pat, ng, inp, rp) for (pat, ng, inp) in rpats for rp in repls]
+        rres = probe.run([('xpath', '', pat, inp, rp) for (pat, ng, inp, rp) in rcases])
+        for (pat, ng, inp, rp), r in zip(rcases, rres):
+            if r is None:
+                continue
+            pre = re.compile(pat)
+            ms = list(pre.finditer(inp))
+            bad = any(expand(rp, m, ng) is None for m in ms[:1])
+            if bad:
+                want = 'ERR:InvalidReplacementString'
+            else:
+                want, pos = 'OK:', 0
+                for m in ms:
+                    want += inp[pos:m.start()] + expand(rp, m, ng)
+                    pos = m.end()
+                want += inp[pos:]
+            if r.get('replace') != want:
+                fails.append({'pid': 'C15', 'pids': ['C15', 'C03'], 'what': 'replace_all with replacement %r' % rp, 'dialect': 'xpath', 'pattern': pat, 'flags': '',
+                              'input': inp, 'expected': want, 'actual': str(r.get('replace'))})
         common = [c for c in cases if not any(x.k in ('bol', 'eol', 'bref') or (x.k == 'rep' and x.a[3]) or (x.k == 'grp' and not x.a[1]) for x in walk(c.node))
                   and 'q' not in c.flags and '(?:' not in c.xpat][:1500]
         cres = probe.run([('xsd', c.flags, c.xpat, c.inp, L + '$0' + R) for c in common])
